@@ -57,6 +57,21 @@ def _lint(job):
     return out
 
 
+def quote_one_identifier(rng, d, sql):
+    from vlib import corpus
+    q = corpus.QUOTE.get(d, '"%s"')
+    if q is None:
+        return sql
+    toks = corpus._tokens(d, sql)
+    from collections import Counter
+    cnt = Counter(t.raw.lower() for t in toks if t.is_type("word") and t.raw.isidentifier() and t.raw.lower() not in corpus.KEYWORDISH and len(t.raw) > 1)
+    multi = [w for w, n in cnt.items() if n >= 2]
+    if not multi:
+        return sql
+    w = rng.choice(multi)
+    return "".join((q % t.raw) if (t.is_type("word") and t.raw.lower() == w) else t.raw for t in toks)
+
+
 def option_runs(ctx):
     import multiprocessing
     rng = ctx.rng
@@ -74,6 +89,19 @@ def option_runs(ctx):
     for _ in range(ctx.budget(60, 1500)):
         s = gen.sql_file(rng)
         jobs.append(("ansi", s if rng.random() < 0.6 else gen.mutate_sql(rng, s), rng.choice([1, 2])))
+    # one identifier quoted consistently in all its occurrences (the statement keeps its meaning: CTE names, aliases, columns
+    # referenced through a quoted spelling), on files that define names and refer back to them
+    named = [(d, f) for d, f in files if any(k in f.name for k in ("with", "cte", "alias", "select", "join", "union", "insert", "merge"))]
+    for d, f in named[: ctx.budget(50, 1200)]:
+        try:
+            t = f.read_text(encoding="utf-8")
+            if len(t) <= 5000:
+                jobs.append((d, quote_one_identifier(rng, d, t), rng.choice([0, 0, 1])))
+        except Exception:
+            pass
+    for q in ['WITH "cte" AS (SELECT 1 AS a) SELECT * FROM "cte"\n', 'WITH cte AS (SELECT 1 AS a) SELECT "cte".* FROM cte AS "cte"\n',
+              'WITH "a b" AS (SELECT 1 AS x) SELECT * FROM "a b" UNION SELECT * FROM "a b"\n', 'SELECT "t".* FROM tbl AS "t" JOIN u AS "U" ON "t".a = "U".a\n']:
+        jobs.append(("ansi", q, 0))
     from vlib.par import robust_map
     res = [r if "internal" in r else {"internal": [], "raised": "timeout/worker died"} for r in robust_map(_lint, jobs, 14, 300)]
     for (d, sql, k), r in zip(jobs, res):
